@@ -117,12 +117,33 @@ Definition needs_ptr (t : thread) : Z :=
   match t_pc t with ACellLoad | ACellCas | LCellLoad | LCellCas => 1 | _ => 0 end.
 Definition crashed (t : thread) : bool := match t_pc t with Crash => true | _ => false end.
 
+Definition pendI (t : thread) : Z :=
+  match t_pc t with CNop _ | IvLoad | IvCas => 1 | _ => 0 end.
+Definition pendR (t : thread) : Z :=
+  match t_pc t with RfLoad | RfCas => 1 | _ => 0 end.
+Definition look (t : thread) : Z :=
+  match t_pc t with LLook1 | LLook2 => 1 | _ => 0 end.
+Definition xr (t : thread) : Z :=
+  match t_pc t with AXCas | AXLoad => 1 | _ => 0 end.
+
+(* the "somebody is responsible" clauses behind nothing-unpersisted:
+   h = havePtr, e = extra, LK/RD = lock holders / readers, PI = changers that
+   stored a mapping and have not finished invalidating, PR = changers that
+   have not finished refreshing, LO = lock holders inside file.lookup,
+   XR = readers that found a nil pointer *)
+Definition S_ok (h : bool) (e : Z) (ptr cur : option nat) (LK RD PI PR LO XR : Z) : Prop :=
+  (h = true -> ptr <> cur -> LO = 0 -> 1 <= PI) /\
+  (0 < XR -> ptr = None) /\
+  (LK = 0 -> h = true -> ptr <> None -> e = 0) /\
+  (0 < e -> LK = 1 \/ 1 <= RD \/ (h = true /\ ptr = None) \/ 1 <= PI + PR).
+
 Definition cnt_ok (r Rt Lt Rr Lr : Z) : Prop :=
   (r = LOCKED /\ Lt + Lr = 1 /\ Rt + Rr = 0) \/ (r = Rt + Rr /\ Lt + Lr = 0).
 
-Definition local_post (s : shared) (t : thread) (e : Z) (s' : shared) (t' : thread) (Rr Lr NPr : Z) : Prop :=
+Definition local_post (s : shared) (t : thread) (e : Z) (s' : shared) (t' : thread) (Rr Lr NPr PIr PRr LOr XRr : Z) : Prop :=
   exists r' h' e', Fields (s_word s') r' h' e' /\ cnt_ok r' (rd t') (lk t') Rr Lr /\ tl_ok t' /\ wf s' /\
     (0 < needs_ptr t' + NPr -> s_ptr s' <> None) /\ crashed t' = false /\
+    S_ok h' e' (s_ptr s') (s_cur s') (lk t' + Lr) (rd t' + Rr) (pendI t' + PIr) (pendR t' + PRr) (look t' + LOr) (xr t' + XRr) /\
     persisted s' + e' + carry t' + undep t' <= persisted s + e + carry t + undep t /\
     (s_sat s' = false -> s_sat s = false /\
        persisted s' + e' + carry t' + undep t' = persisted s + e + carry t + undep t).
@@ -146,48 +167,79 @@ Ltac psimp := rewrite ?persisted_set_sat, ?persisted_set_word, ?persisted_touch,
   ?sat_touch, ?sat_set_cell, ?sat_set_ptr, ?sat_set_word, ?sat_set_sat in *.
 
 Ltac ms Hpc :=
-  unfold rd, lk, carry, undep, needs_ptr, crashed, tl_ok, cnt_ok in *;
+  unfold rd, lk, carry, undep, needs_ptr, crashed, pendI, pendR, look, xr, tl_ok, cnt_ok, S_ok in *;
   cbn [t_pc t_amt t_st t_kind t_old t_prev t_tgt t_after with_pc with_st with_old with_amt to_close after_release goto_nops] in *;
   try rewrite Hpc in *; cbn iota beta in *.
 
 (* a step that leaves the shared state alone *)
-Lemma post_same s t e t' r h Rr Lr NPr :
+Lemma post_same s t e t' r h Rr Lr NPr PIr PRr LOr XRr :
   Fields (s_word s) r h e -> wf s ->
   cnt_ok r (rd t') (lk t') Rr Lr -> tl_ok t' ->
   (0 < needs_ptr t' + NPr -> s_ptr s <> None) -> crashed t' = false ->
+  S_ok h e (s_ptr s) (s_cur s) (lk t' + Lr) (rd t' + Rr) (pendI t' + PIr) (pendR t' + PRr) (look t' + LOr) (xr t' + XRr) ->
   carry t' + undep t' = carry t + undep t ->
-  local_post s t e s t' Rr Lr NPr.
+  local_post s t e s t' Rr Lr NPr PIr PRr LOr XRr.
 Proof.
-  intros F W C T N K E. exists r, h, e.
+  intros F W C T N K SO E. exists r, h, e.
   split; [exact F|]. split; [exact C|]. split; [exact T|]. split; [exact W|].
-  split; [exact N|]. split; [exact K|]. split; [lia|].
+  split; [exact N|]. split; [exact K|]. split; [exact SO|]. split; [lia|].
   intros H. split; [exact H | lia].
 Qed.
+
+(* discharges an S_ok goal from the unfolded pre-state clauses: forward
+   chaining of implications whose premise is provable, case split, arithmetic *)
+Ltac fwd :=
+  repeat match goal with
+         | H : _ /\ _ |- _ => destruct H
+         | H : ?A -> ?B |- _ =>
+             let HA := fresh "HA" in
+             assert (HA : A) by (clear H; first [assumption | lia | congruence | discriminate
+                                               | (intro; congruence) | (intro; lia) | (intro; discriminate)]);
+             specialize (H HA); clear HA
+         end.
+Ltac sok_fin :=
+  first [ lia | congruence | assumption | discriminate
+        | (left; sok_fin) | (right; sok_fin) | (split; sok_fin) ].
+Ltac sok Hpc :=
+  ms Hpc; cbn [set_word set_sat set_ptr set_cell touch s_ptr s_cur] in *;
+  try match goal with hh : bool |- _ => destruct hh end;
+  try match goal with ss : shared |- _ => destruct (s_ptr ss) eqn:? end;
+  cbn [andb negb] in *; rewrite ?andb_true_r, ?andb_false_r in *;
+  repeat match goal with H : context [if ?c then _ else _] |- _ => destruct c eqn:? end;
+  repeat match goal with
+         | H : (_ =? _) = false |- _ => apply Z.eqb_neq in H
+         | H : (_ =? _) = true |- _ => apply Z.eqb_eq in H
+         end;
+  repeat split; intros; fwd;
+  repeat match goal with H : _ \/ _ |- _ => destruct H; fwd end;
+  sok_fin.
 
 Ltac same_leaf Hpc F W T N r h :=
   apply (post_same _ _ _ _ r h);
   [ exact F | exact W | ms Hpc; lia
   | ms Hpc; destruct T; split; [assumption | try (intros; discriminate); try assumption]
   | ms Hpc; try exact N; try (intros; lia) | ms Hpc; reflexivity
+  | sok Hpc
   | ms Hpc; lia ].
 
 (* the leaf shared by every "add n to extra" CAS *)
-Lemma extra_leaf s t e r h (n : Z) s' t' Rr Lr NPr w' r' :
+Lemma extra_leaf s t e r h (n : Z) s' t' Rr Lr NPr PIr PRr LOr XRr w' r' :
   Fields (s_word s) r h e -> 0 <= n -> wf s ->
   Fields w' r' h (extra_after e n) ->
   s' = set_sat (set_word s w') (add_extra_saturates (s_word s) n) ->
   cnt_ok r' (rd t') (lk t') Rr Lr -> tl_ok t' ->
   (0 < needs_ptr t' + NPr -> s_ptr s <> None) -> crashed t' = false ->
+  S_ok h (extra_after e n) (s_ptr s) (s_cur s) (lk t' + Lr) (rd t' + Rr) (pendI t' + PIr) (pendR t' + PRr) (look t' + LOr) (xr t' + XRr) ->
   carry t' + undep t' + n = carry t + undep t ->
-  local_post s t e s' t' Rr Lr NPr.
+  local_post s t e s' t' Rr Lr NPr PIr PRr LOr XRr.
 Proof.
-  intros F Hn W F' -> C T N K E.
+  intros F Hn W F' -> C T N K SO E.
   destruct (f_add_extra _ _ _ _ n F Hn) as [_ Es].
   pose proof F as (_ & _ & He).
   pose proof (extra_after_le e n He Hn) as Hx.
   exists r', h, (extra_after e n). psimp.
   split; [exact F'|]. split; [exact C|]. split; [exact T|]. split; [exact W|].
-  split; [exact N|]. split; [exact K|]. split; [lia|].
+  split; [exact N|]. split; [exact K|]. split; [exact SO|]. split; [lia|].
   intros Hs. apply orb_false_iff in Hs as [Hs1 Hs2]. split; [exact Hs1|].
   rewrite Es in Hs2. rewrite (extra_after_exact _ _ Hs2). lia.
 Qed.
@@ -196,15 +248,17 @@ Ltac npg := cbn [set_word set_sat set_ptr set_cell touch s_ptr] in *;
   first [ assumption | (intros; lia) | (intros _; congruence) ].
 Ltac fin Hpc := ms Hpc; first [ assumption | lia | (split; [assumption | intros; discriminate]) | (intros; lia) | reflexivity ].
 
-Lemma step_local np s t s' t' r h e Rr Lr NPr n :
+Lemma step_local np s t s' t' r h e Rr Lr NPr PIr PRr LOr XRr n :
   step_thread np s t = (s', t') ->
   Fields (s_word s) r h e -> 0 <= Rr -> 0 <= Lr -> Rr + Lr + 1 <= n -> n < LOCKED ->
-  0 <= NPr <= Rr + Lr ->
+  0 <= NPr <= Rr + Lr -> 0 <= PIr -> 0 <= PRr -> 0 <= LOr <= Lr -> 0 <= XRr <= Rr ->
   cnt_ok r (rd t) (lk t) Rr Lr -> tl_ok t -> wf s ->
   (0 < needs_ptr t + NPr -> s_ptr s <> None) -> crashed t = false ->
-  local_post s t e s' t' Rr Lr NPr.
+  S_ok h e (s_ptr s) (s_cur s) (lk t + Lr) (rd t + Rr) (pendI t + PIr) (pendR t + PRr) (look t + LOr) (xr t + XRr) ->
+  local_post s t e s' t' Rr Lr NPr PIr PRr LOr XRr.
 Proof.
-  intros H F HRr HLr Hn HnL HNP C T W N K.
+  intros H F HRr HLr Hn HnL HNP HPI HPR HLO HXR C T W N K SO.
+  pose proof (extra_after_le e (t_amt t)) as Hx0.
   pose proof (fields_readers _ _ _ _ F) as Er.
   pose proof (fields_have _ _ _ _ F) as Eh.
   pose proof (fields_extra _ _ _ _ F) as Ee.
@@ -222,24 +276,24 @@ Proof.
     rewrite <- Ew in H. rewrite El, Eh, Er in H.
     destruct (r =? LOCKED) eqn:Elk; cbn [negb andb] in H.
     + injection H as <- <-.
-      eapply (extra_leaf s t e r h (t_amt t)); [exact F | exact Ta | exact W | apply (f_add_extra _ _ _ _ _ F Ta) | reflexivity | fin Hpc | fin Hpc | fin Hpc | fin Hpc | fin Hpc].
+      eapply (extra_leaf s t e r h (t_amt t)); [exact F | exact Ta | exact W | apply (f_add_extra _ _ _ _ _ F Ta) | reflexivity | fin Hpc | fin Hpc | fin Hpc | fin Hpc | sok Hpc | fin Hpc].
     + apply Z.eqb_neq in Elk. destruct h; cbn [negb andb] in H.
       * assert (Hrr : r = Rr /\ Lr = 0) by (ms Hpc; lia). destruct Hrr as [-> ->].
         pose proof (f_inc _ _ _ _ F ltac:(rewrite LOCKED_v, HAVE_v in *; lia)) as F'.
         destruct (s_ptr s) eqn:Ep; injection H as <- <-;
         (exists (Rr + 1), true, e; psimp; split; [exact F'|]; ms Hpc; psimp;
          split; [lia|]; split; [split; [assumption|intros; discriminate]|]; split; [exact W|];
-         split; [cbn [set_word s_ptr]; first [assumption | rewrite Ep; assumption | intros _; congruence]|]; split; [reflexivity|];
+         split; [cbn [set_word s_ptr]; first [assumption | rewrite Ep; assumption | intros _; congruence]|]; split; [reflexivity|]; split; [sok Hpc|];
          split; [lia|]; intros Hs; split; [exact Hs|lia]).
       * destruct (0 <? r) eqn:Er0; injection H as <- <-.
-        -- eapply (extra_leaf s t e r false (t_amt t)); [exact F | exact Ta | exact W | apply (f_add_extra _ _ _ _ _ F Ta) | reflexivity | fin Hpc | fin Hpc | fin Hpc | fin Hpc | fin Hpc].
+        -- eapply (extra_leaf s t e r false (t_amt t)); [exact F | exact Ta | exact W | apply (f_add_extra _ _ _ _ _ F Ta) | reflexivity | fin Hpc | fin Hpc | fin Hpc | fin Hpc | sok Hpc | fin Hpc].
         -- apply Z.ltb_ge in Er0. assert (Hr0 : r = 0) by lia. clear Er. subst r.
-           eapply (extra_leaf s t e 0 false (t_amt t)); [exact F | exact Ta | exact W | apply f_set_locked with (r := 0); apply (f_add_extra _ _ _ _ _ F Ta) | reflexivity | fin Hpc | fin Hpc | fin Hpc | fin Hpc | fin Hpc].
+           eapply (extra_leaf s t e 0 false (t_amt t)); [exact F | exact Ta | exact W | apply f_set_locked with (r := 0); apply (f_add_extra _ _ _ _ _ F Ta) | reflexivity | fin Hpc | fin Hpc | fin Hpc | fin Hpc | sok Hpc | fin Hpc].
   - (* AXCas *)
     destruct (Z.eqb_spec (s_word s) (t_st t)) as [Ew|Ne].
     2:{ injection H as <- <-; same_leaf Hpc F W T N r h. }
     rewrite <- Ew in H. injection H as <- <-.
-    eapply (extra_leaf s t e r h (t_amt t)); [exact F | exact Ta | exact W | apply (f_add_extra _ _ _ _ _ F Ta) | reflexivity | fin Hpc | fin Hpc | fin Hpc | fin Hpc | fin Hpc].
+    eapply (extra_leaf s t e r h (t_amt t)); [exact F | exact Ta | exact W | apply (f_add_extra _ _ _ _ _ F Ta) | reflexivity | fin Hpc | fin Hpc | fin Hpc | fin Hpc | sok Hpc | fin Hpc].
   - (* AXLoad *) injection H as <- <-. same_leaf Hpc F W T N r h.
   - (* ACellLoad *)
     destruct (s_ptr s) as [g|] eqn:Ep; [|exfalso; ms Hpc; apply N; [lia|reflexivity]].
@@ -247,7 +301,7 @@ Proof.
     exists r, h, e. psimp. split; [exact F|]. ms Hpc. psimp.
     split; [lia|]. split; [split; [assumption|intros; discriminate]|].
     split; [apply wf_touch; exact W|]. split; [npg|].
-    split; [reflexivity|]. split; [lia|]. intros Hs. split; [exact Hs|lia].
+    split; [reflexivity|]. split; [sok Hpc|]. split; [lia|]. intros Hs. split; [exact Hs|lia].
   - (* ACellCas *)
     destruct (s_ptr s) as [g|] eqn:Ep; [|exfalso; ms Hpc; apply N; [lia|reflexivity]].
     pose proof W as (Wp & _). pose proof (Wp g Ep) as Hg.
@@ -260,13 +314,13 @@ Proof.
       split; [lia|]. split; [split; [assumption|intros; discriminate]|].
       split; [apply wf_set_cell; [apply wf_touch; exact W | lia]|].
       split; [npg|].
-      split; [reflexivity|]. split; [lia|].
+      split; [reflexivity|]. split; [sok Hpc|]. split; [lia|].
       intros Hs. apply orb_false_iff in Hs as [Hs1 Hs2]. split; [exact Hs1|].
       rewrite (B3 Hs2). lia.
     + exists r, h, e. psimp. split; [exact F|]. ms Hpc. psimp.
       split; [lia|]. split; [split; [assumption|intros; discriminate]|].
       split; [apply wf_touch; exact W|]. split; [npg|].
-      split; [reflexivity|]. split; [lia|]. intros Hs. split; [exact Hs|lia].
+      split; [reflexivity|]. split; [sok Hpc|]. split; [lia|]. intros Hs. split; [exact Hs|lia].
   - (* RCas *)
     destruct (Z.eqb_spec (s_word s) (t_st t)) as [Ew|Ne].
     2:{ repeat match goal with H : (if ?c then _ else _) = _ |- _ => destruct c end;
@@ -279,10 +333,10 @@ Proof.
     + apply andb_true_iff in Cd as [Cr Ch]. apply Z.eqb_eq in Cr.
       exists LOCKED, h, e. psimp. split; [apply (f_set_locked _ _ _ _ F)|]. ms Hpc. psimp.
       split; [lia|]. split; [split; [assumption|intros; discriminate]|]. split; [exact W|].
-      split; [npg|]. split; [reflexivity|]. split; [lia|]. intros Hs. split; [exact Hs|lia].
+      split; [npg|]. split; [reflexivity|]. split; [sok Hpc|]. split; [lia|]. intros Hs. split; [exact Hs|lia].
     + exists (r - 1), h, e. psimp. split; [apply (f_dec _ _ _ _ F); lia|]. ms Hpc. psimp.
       split; [lia|]. split; [split; [assumption|intros; discriminate]|]. split; [exact W|].
-      split; [npg|]. split; [reflexivity|]. split; [lia|]. intros Hs. split; [exact Hs|lia].
+      split; [npg|]. split; [reflexivity|]. split; [sok Hpc|]. split; [lia|]. intros Hs. split; [exact Hs|lia].
   - (* RLoad *) injection H as <- <-. same_leaf Hpc F W T N r h.
   - (* LCas *)
     assert (Hlk : r = LOCKED /\ Lr = 0 /\ Rr = 0 /\ NPr = 0).
@@ -301,17 +355,17 @@ Proof.
         exists LOCKED, true, 0. psimp. split; [apply (f_clear_extra _ _ _ _ F)|]. ms Hpc. psimp.
         split; [lia|]. split; [split; [lia|intros; discriminate]|]. split; [exact W|].
         split; [intros _; cbn [set_word s_ptr]; destruct (e =? 0); [discriminate Cd | rewrite Cd; discriminate]|].
-        split; [reflexivity|]. split; [lia|]. intros Hs. split; [exact Hs|lia].
+        split; [reflexivity|]. split; [sok Hpc|]. split; [lia|]. intros Hs. split; [exact Hs|lia].
       * (* unlock *)
         exists 0, true, e. psimp. split; [apply (f_clear_locked _ _ _ _ F)|].
         unfold after_release, to_close. destruct (t_kind t); [|destruct (t_prev t)]; ms Hpc; psimp;
         (split; [lia|]; split; [split; [assumption|intros; discriminate]|]; split; [exact W|];
-         split; [npg|]; split; [reflexivity|]; split; [lia|]; intros Hs; split; [exact Hs|lia]).
+         split; [npg|]; split; [reflexivity|]; split; [sok Hpc|]; split; [lia|]; intros Hs; split; [exact Hs|lia]).
     + (* setHavePtr *)
       injection H as <- <-.
       exists LOCKED, true, e. psimp. split; [apply (f_set_have _ _ _ _ F)|]. ms Hpc. psimp.
       split; [lia|]. split; [split; [assumption|intros; discriminate]|]. split; [exact W|].
-      split; [npg|]. split; [reflexivity|]. split; [lia|]. intros Hs. split; [exact Hs|lia].
+      split; [npg|]. split; [reflexivity|]. split; [sok Hpc|]. split; [lia|]. intros Hs. split; [exact Hs|lia].
   - (* LLoad *) injection H as <- <-. same_leaf Hpc F W T N r h.
   - (* LLook1 *)
     assert (Hlk : r = LOCKED /\ Lr = 0 /\ Rr = 0 /\ NPr = 0) by (ms Hpc; lia).
@@ -321,7 +375,7 @@ Proof.
     + exists LOCKED, h, e. psimp. split; [exact F|]. ms Hpc. psimp.
       split; [lia|]. split; [split; [assumption|intros; discriminate]|].
       split; [apply wf_set_ptr_none; exact W|].
-      split; [npg|]. split; [reflexivity|]. split; [lia|]. intros Hs. split; [exact Hs|lia].
+      split; [npg|]. split; [reflexivity|]. split; [sok Hpc|]. split; [lia|]. intros Hs. split; [exact Hs|lia].
   - (* LLook2 *)
     assert (Hlk : r = LOCKED /\ Lr = 0 /\ Rr = 0 /\ NPr = 0) by (ms Hpc; lia).
     destruct Hlk as (-> & -> & -> & ->).
@@ -329,14 +383,14 @@ Proof.
     exists LOCKED, h, e. psimp. split; [exact F|]. ms Hpc. psimp.
     split; [lia|]. split; [split; [assumption|intros; discriminate]|].
     split; [apply wf_set_ptr_cur; exact W|].
-    split; [npg|]. split; [reflexivity|]. split; [lia|]. intros Hs. split; [exact Hs|lia].
+    split; [npg|]. split; [reflexivity|]. split; [sok Hpc|]. split; [lia|]. intros Hs. split; [exact Hs|lia].
   - (* LCellLoad *)
     destruct (s_ptr s) as [g|] eqn:Ep; [|exfalso; ms Hpc; apply N; [lia|reflexivity]].
     injection H as <- <-.
     exists r, h, e. psimp. split; [exact F|]. ms Hpc. psimp.
     split; [lia|]. split; [split; [assumption|intros; discriminate]|].
     split; [apply wf_touch; exact W|]. split; [npg|].
-    split; [reflexivity|]. split; [lia|]. intros Hs. split; [exact Hs|lia].
+    split; [reflexivity|]. split; [sok Hpc|]. split; [lia|]. intros Hs. split; [exact Hs|lia].
   - (* LCellCas *)
     destruct (s_ptr s) as [g|] eqn:Ep; [|exfalso; ms Hpc; apply N; [lia|reflexivity]].
     pose proof W as (Wp & _). pose proof (Wp g Ep) as Hg.
@@ -349,20 +403,22 @@ Proof.
       split; [lia|]. split; [split; [lia|intros; discriminate]|].
       split; [apply wf_set_cell; [apply wf_touch; exact W | lia]|].
       split; [npg|].
-      split; [reflexivity|]. split; [lia|].
+      split; [reflexivity|]. split; [sok Hpc|]. split; [lia|].
       intros Hs. apply orb_false_iff in Hs as [Hs1 Hs2]. split; [exact Hs1|].
       rewrite (B3 Hs2). lia.
     + exists r, h, e. psimp. split; [exact F|]. ms Hpc. psimp.
       split; [lia|]. split; [split; [assumption|intros; discriminate]|].
       split; [apply wf_touch; exact W|]. split; [npg|].
-      split; [reflexivity|]. split; [lia|]. intros Hs. split; [exact Hs|lia].
+      split; [reflexivity|]. split; [sok Hpc|]. split; [lia|]. intros Hs. split; [exact Hs|lia].
   - (* CIdle *) injection H as <- <-. destruct (t_tgt t); same_leaf Hpc F W T N r h.
   - (* CPre *) injection H as <- <-. same_leaf Hpc F W T N r h.
   - (* CStore *)
     assert (Hgo : forall k, let t0 := mkT Done Changer (t_st t) (t_amt t) (t_old t) (s_cur s) (t_tgt t) Done in
               rd (goto_nops t0 k IvLoad) = 0 /\ lk (goto_nops t0 k IvLoad) = 0 /\ carry (goto_nops t0 k IvLoad) = 0 /\
               undep (goto_nops t0 k IvLoad) = 0 /\ needs_ptr (goto_nops t0 k IvLoad) = 0 /\
-              crashed (goto_nops t0 k IvLoad) = false /\ tl_ok (goto_nops t0 k IvLoad)).
+              crashed (goto_nops t0 k IvLoad) = false /\ tl_ok (goto_nops t0 k IvLoad) /\
+              pendI (goto_nops t0 k IvLoad) = 1 /\ pendR (goto_nops t0 k IvLoad) = 0 /\
+              look (goto_nops t0 k IvLoad) = 0 /\ xr (goto_nops t0 k IvLoad) = 0).
     { intros k t0. destruct k; cbn; repeat split; try assumption; intros; discriminate. }
     assert (Hme : rd t = 0 /\ lk t = 0 /\ carry t = 0 /\ undep t = 0 /\ needs_ptr t = 0) by (ms Hpc; lia).
     destruct Hme as (M1 & M2 & M3 & M4 & M5). rewrite M1, M2 in C. rewrite M5 in N.
@@ -370,8 +426,8 @@ Proof.
     destruct (t_tgt t) eqn:Etg.
     + (* NewFile *)
       injection H as <- <-.
-      destruct (Hgo (n_after_store_rotate np)) as (G1 & G2 & G3 & G4 & G5 & G6 & G7).
-      exists r, h, e. split; [exact F|]. rewrite G1, G2, G3, G4, G5, M3, M4.
+      destruct (Hgo (n_after_store_rotate np)) as (G1 & G2 & G3 & G4 & G5 & G6 & G7 & G8 & G9 & G10 & G11).
+      exists r, h, e. split; [exact F|]. rewrite G1, G2, G3, G4, G5, G8, G9, G10, G11, M3, M4.
       split; [exact C|]. split; [exact G7|]. split.
       { split; [|split; [|split]]; cbn [s_ptr s_cur s_maps s_cells].
         - intros g Hg. rewrite app_length. specialize (Wp g Hg). cbn. lia.
@@ -380,13 +436,13 @@ Proof.
           + eapply Forall_impl; [|exact Wm]. intros a Ha. cbn beta in *. rewrite app_length. cbn [length]. lia.
           + constructor; [rewrite app_length; cbn; lia | constructor].
         - apply Forall_app. split; [exact Wl|]. constructor; [rewrite W64_v; lia | constructor]. }
-      split; [exact N|]. split; [exact G6|].
+      split; [exact N|]. split; [exact G6|]. split; [sok Hpc|].
       unfold persisted. cbn [s_cells s_sat]. rewrite persisted_app.
       split; [lia|]. intros Hs. split; [exact Hs|lia].
     + (* SameFile *)
       destruct (s_cur s) as [g0|] eqn:Ec; injection H as <- <-.
-      * destruct (Hgo (n_after_store_extend np)) as (G1 & G2 & G3 & G4 & G5 & G6 & G7).
-        exists r, h, e. split; [exact F|]. rewrite G1, G2, G3, G4, G5, M3, M4.
+      * destruct (Hgo (n_after_store_extend np)) as (G1 & G2 & G3 & G4 & G5 & G6 & G7 & G8 & G9 & G10 & G11).
+        exists r, h, e. split; [exact F|]. rewrite G1, G2, G3, G4, G5, G8, G9, G10, G11, M3, M4.
         split; [exact C|]. split; [exact G7|]. split.
         { split; [|split; [|split]]; cbn [s_ptr s_cur s_maps s_cells].
           - intros g Hg. rewrite app_length. specialize (Wp g Hg). cbn. lia.
@@ -394,17 +450,17 @@ Proof.
           - apply Forall_app. split; [exact Wm|]. constructor; [|constructor].
             apply wf_file_of; [exact W | apply Wc; reflexivity].
           - exact Wl. }
-        split; [exact N|]. split; [exact G6|].
+        split; [exact N|]. split; [exact G6|]. split; [sok Hpc|].
         unfold persisted. cbn [s_cells s_sat].
         split; [lia|]. intros Hs. split; [exact Hs|lia].
       * same_leaf Hpc F W T N r h.
     + (* NoFile *)
       injection H as <- <-.
-      destruct (Hgo (n_after_store_rotate np)) as (G1 & G2 & G3 & G4 & G5 & G6 & G7).
-      exists r, h, e. split; [exact F|]. rewrite G1, G2, G3, G4, G5, M3, M4.
+      destruct (Hgo (n_after_store_rotate np)) as (G1 & G2 & G3 & G4 & G5 & G6 & G7 & G8 & G9 & G10 & G11).
+      exists r, h, e. split; [exact F|]. rewrite G1, G2, G3, G4, G5, G8, G9, G10, G11, M3, M4.
       split; [exact C|]. split; [exact G7|]. split.
       { split; [|split; [|split]]; cbn [s_ptr s_cur s_maps s_cells]; try assumption. intros g Hg. discriminate. }
-      split; [exact N|]. split; [exact G6|].
+      split; [exact N|]. split; [exact G6|]. split; [sok Hpc|].
       unfold persisted. cbn [s_cells s_sat].
       split; [lia|]. intros Hs. split; [exact Hs|lia].
   - (* CNop *) injection H as <- <-. destruct k; same_leaf Hpc F W T N r h.
@@ -416,13 +472,15 @@ Proof.
     rewrite <- Ew.
     exists r, false, e. psimp. split; [apply (f_clear_have _ _ _ _ F)|]. ms Hpc. psimp.
     split; [lia|]. split; [split; [assumption|intros; discriminate]|]. split; [exact W|].
-    split; [npg|]. split; [reflexivity|]. split; [lia|]. intros Hs. split; [exact Hs|lia].
+    split; [npg|]. split; [reflexivity|]. split; [sok Hpc|]. split; [lia|]. intros Hs. split; [exact Hs|lia].
   - (* RfLoad *)
     destruct (w_have (s_word s) || (0 <? w_readers (s_word s)) || (w_extra (s_word s) =? 0)) eqn:Cd;
       injection H as <- <-.
-    + unfold to_close. cbn [t_prev with_st]. destruct (t_prev t); same_leaf Hpc F W T N r h.
+    + rewrite Eh, Er, Ee in Cd.
+      apply orb_true_iff in Cd as [Cd|Cd]; [apply orb_true_iff in Cd as [Cd|Cd]; [|apply Z.ltb_lt in Cd]|];
+      unfold to_close; cbn [t_prev with_st]; destruct (t_prev t); same_leaf Hpc F W T N r h.
     + apply orb_false_iff in Cd as [Cd _]. apply orb_false_iff in Cd as [_ Cd]. apply Z.ltb_ge in Cd.
-      apply (post_same _ _ _ _ r h); [exact F | exact W | ms Hpc; lia | | ms Hpc; exact N | ms Hpc; reflexivity | ms Hpc; lia].
+      apply (post_same _ _ _ _ r h); [exact F | exact W | ms Hpc; lia | | ms Hpc; exact N | ms Hpc; reflexivity | sok Hpc | ms Hpc; lia].
       ms Hpc. split; [assumption|]. intros _. lia.
   - (* RfCas *)
     destruct (Z.eqb_spec (s_word s) (t_st t)) as [Ew|Ne]; injection H as <- <-.
@@ -433,12 +491,12 @@ Proof.
     destruct Hz as (Hr0 & -> & -> & ->).
     exists LOCKED, h, e. psimp. split; [apply (f_set_locked _ _ _ _ F)|]. ms Hpc. psimp.
     split; [lia|]. split; [split; [assumption|intros; discriminate]|]. split; [exact W|].
-    split; [npg|]. split; [reflexivity|]. split; [lia|]. intros Hs. split; [exact Hs|lia].
+    split; [npg|]. split; [reflexivity|]. split; [sok Hpc|]. split; [lia|]. intros Hs. split; [exact Hs|lia].
   - (* CClose *)
     destruct (t_prev t) as [g|]; injection H as <- <-.
     + exists r, h, e. split; [exact F|]. ms Hpc.
       split; [lia|]. split; [split; [assumption|intros; discriminate]|]. split; [exact W|].
-      split; [exact N|]. split; [reflexivity|].
+      split; [exact N|]. split; [reflexivity|]. split; [sok Hpc|].
       change (persisted (mkS (s_word s) (s_ptr s) (s_cur s) (s_maps s) (g :: s_closed s) (s_cells s) (s_faults s) (s_sat s))) with (persisted s).
       cbn [s_sat]. split; [lia|]. intros Hs. split; [exact Hs|lia].
     + same_leaf Hpc F W T N r h.
@@ -455,6 +513,7 @@ Definition Inv (TOTAL : Z) (st : state) : Prop :=
     Forall tl_ok ts /\ wf s /\
     (0 < sumf needs_ptr ts -> s_ptr s <> None) /\
     Forall (fun t => crashed t = false) ts /\
+    S_ok h e (s_ptr s) (s_cur s) (sumf lk ts) (sumf rd ts) (sumf pendI ts) (sumf pendR ts) (sumf look ts) (sumf xr ts) /\
     Z.of_nat (length ts) < LOCKED /\
     persisted s + e + sumf carry ts + sumf undep ts <= TOTAL /\
     (s_sat s = false -> persisted s + e + sumf carry ts + sumf undep ts = TOTAL).
@@ -462,17 +521,21 @@ Definition Inv (TOTAL : Z) (st : state) : Prop :=
 Lemma sum_others_bound l i t : nth_error l i = Some t ->
   0 <= sumf rd l - rd t /\ 0 <= sumf lk l - lk t /\
   (sumf rd l - rd t) + (sumf lk l - lk t) + 1 <= Z.of_nat (length l) /\
-  0 <= sumf needs_ptr l - needs_ptr t <= (sumf rd l - rd t) + (sumf lk l - lk t).
+  0 <= sumf needs_ptr l - needs_ptr t <= (sumf rd l - rd t) + (sumf lk l - lk t) /\
+  0 <= sumf pendI l - pendI t /\ 0 <= sumf pendR l - pendR t /\
+  0 <= sumf look l - look t <= sumf lk l - lk t /\
+  0 <= sumf xr l - xr t <= sumf rd l - rd t.
 Proof.
+  assert (P : forall x, 0 <= needs_ptr x <= rd x + lk x /\ 0 <= pendI x /\ 0 <= pendR x /\
+                        0 <= look x <= lk x /\ 0 <= xr x <= rd x).
+  { intros x. unfold needs_ptr, rd, lk, pendI, pendR, look, xr. destruct (t_pc x); lia. }
+  assert (D : forall l, 0 <= sumf needs_ptr l <= sumf rd l + sumf lk l /\ 0 <= sumf pendI l /\ 0 <= sumf pendR l /\
+                        0 <= sumf look l <= sumf lk l /\ 0 <= sumf xr l <= sumf rd l).
+  { clear -P. induction l as [|y l IH]; cbn [sumf]; [lia|]. pose proof (P y). lia. }
   revert i; induction l as [|x l IH]; intros [|i] H; cbn [nth_error] in H; try discriminate.
   - injection H as ->. cbn [sumf length]. pose proof (sum_rd_lk_le l) as (A & B & C).
-    assert (D : 0 <= sumf needs_ptr l <= sumf rd l + sumf lk l).
-    { clear. induction l as [|y l IH]; cbn [sumf]; [lia|].
-      unfold needs_ptr, rd, lk in *. destruct (t_pc y); lia. }
-    lia.
-  - specialize (IH _ H). cbn [sumf length]. pose proof (rd_lk_bound x).
-    assert (0 <= needs_ptr x <= rd x + lk x) by (unfold needs_ptr, rd, lk; destruct (t_pc x); lia).
-    lia.
+    pose proof (D l). lia.
+  - specialize (IH _ H). cbn [sumf length]. pose proof (rd_lk_bound x). pose proof (P x). lia.
 Qed.
 
 Lemma nth_error_Forall {A} (P : A -> Prop) l i x : Forall P l -> nth_error l i = Some x -> P x.
@@ -483,28 +546,50 @@ Proof.
   destruct st as [s ts]. intros I. unfold step.
   destruct (nth_error ts i) as [t|] eqn:Hn; [|exact I].
   destruct (step_thread np s t) as [s' t'] eqn:Hs.
-  destruct I as (r & h & e & F & C & TL & W & NP & CR & LEN & LE & EQ).
-  pose proof (sum_others_bound _ _ _ Hn) as (B1 & B2 & B3 & B4).
+  destruct I as (r & h & e & F & C & TL & W & NP & CR & SO & LEN & LE & EQ).
+  pose proof (sum_others_bound _ _ _ Hn) as (B1 & B2 & B3 & B4 & B5 & B6 & B7 & B8).
+  pose proof (sumf_upd pendI _ _ _ t' Hn) as Upi.
+  pose proof (sumf_upd pendR _ _ _ t' Hn) as Upr.
+  pose proof (sumf_upd look _ _ _ t' Hn) as Ulo.
+  pose proof (sumf_upd xr _ _ _ t' Hn) as Uxr.
   pose proof (sumf_upd rd _ _ _ t' Hn) as Urd.
   pose proof (sumf_upd lk _ _ _ t' Hn) as Ulk.
   pose proof (sumf_upd carry _ _ _ t' Hn) as Uca.
   pose proof (sumf_upd undep _ _ _ t' Hn) as Uun.
   pose proof (sumf_upd needs_ptr _ _ _ t' Hn) as Unp.
   assert (L := step_local np s t s' t' r h e (sumf rd ts - rd t) (sumf lk ts - lk t)
-                 (sumf needs_ptr ts - needs_ptr t) (Z.of_nat (length ts)) Hs F B1 B2 B3 LEN B4).
+                 (sumf needs_ptr ts - needs_ptr t) (sumf pendI ts - pendI t) (sumf pendR ts - pendR t)
+                 (sumf look ts - look t) (sumf xr ts - xr t) (Z.of_nat (length ts)) Hs F B1 B2 B3 LEN B4 B5 B6 B7 B8).
   assert (C' : cnt_ok r (rd t) (lk t) (sumf rd ts - rd t) (sumf lk ts - lk t)).
   { unfold cnt_ok in *. lia. }
   specialize (L C' (nth_error_Forall _ _ _ _ TL Hn) W).
   assert (NP' : 0 < needs_ptr t + (sumf needs_ptr ts - needs_ptr t) -> s_ptr s <> None).
   { intros Hp. apply NP. lia. }
   specialize (L NP' (nth_error_Forall _ _ _ _ CR Hn)).
-  destruct L as (r' & h' & e' & F' & Cn & T' & W' & N' & K' & LE' & EQ').
+  assert (SO' : S_ok h e (s_ptr s) (s_cur s) (lk t + (sumf lk ts - lk t)) (rd t + (sumf rd ts - rd t))
+                  (pendI t + (sumf pendI ts - pendI t)) (pendR t + (sumf pendR ts - pendR t))
+                  (look t + (sumf look ts - look t)) (xr t + (sumf xr ts - xr t))).
+  { replace (lk t + (sumf lk ts - lk t)) with (sumf lk ts) by lia.
+    replace (rd t + (sumf rd ts - rd t)) with (sumf rd ts) by lia.
+    replace (pendI t + (sumf pendI ts - pendI t)) with (sumf pendI ts) by lia.
+    replace (pendR t + (sumf pendR ts - pendR t)) with (sumf pendR ts) by lia.
+    replace (look t + (sumf look ts - look t)) with (sumf look ts) by lia.
+    replace (xr t + (sumf xr ts - xr t)) with (sumf xr ts) by lia. exact SO. }
+  specialize (L SO').
+  destruct L as (r' & h' & e' & F' & Cn & T' & W' & N' & K' & S' & LE' & EQ').
   exists r', h', e'. split; [exact F'|].
-  rewrite Urd, Ulk, Uca, Uun, Unp.
+  rewrite Urd, Ulk, Uca, Uun, Unp, Upi, Upr, Ulo, Uxr.
   split; [unfold cnt_ok in *; lia|].
   split; [apply Forall_upd; assumption|]. split; [exact W'|].
   split; [intros Hp; apply N'; lia|].
   split; [apply Forall_upd; assumption|].
+  split.
+  { replace (sumf lk ts - lk t + lk t') with (lk t' + (sumf lk ts - lk t)) by lia.
+    replace (sumf rd ts - rd t + rd t') with (rd t' + (sumf rd ts - rd t)) by lia.
+    replace (sumf pendI ts - pendI t + pendI t') with (pendI t' + (sumf pendI ts - pendI t)) by lia.
+    replace (sumf pendR ts - pendR t + pendR t') with (pendR t' + (sumf pendR ts - pendR t)) by lia.
+    replace (sumf look ts - look t + look t') with (look t' + (sumf look ts - look t)) by lia.
+    replace (sumf xr ts - xr t + xr t') with (xr t' + (sumf xr ts - xr t)) by lia. exact S'. }
   rewrite upd_length. split; [exact LEN|].
   split; [lia|]. intros Hsat. destruct (EQ' Hsat) as [Hs0 E0]. specialize (EQ Hs0). lia.
 Qed.
@@ -521,29 +606,42 @@ Definition fresh_thread (t : thread) : Prop :=
 
 Lemma fresh_measures t : fresh_thread t ->
   rd t = 0 /\ lk t = 0 /\ carry t = 0 /\ needs_ptr t = 0 /\ crashed t = false /\ tl_ok t /\
-  0 <= undep t /\ undep t = unbegun t.
+  0 <= undep t /\ undep t = unbegun t /\ pendI t = 0 /\ pendR t = 0 /\ look t = 0 /\ xr t = 0.
 Proof.
-  unfold fresh_thread, rd, lk, carry, needs_ptr, crashed, tl_ok, undep, unbegun.
+  unfold fresh_thread, rd, lk, carry, needs_ptr, crashed, tl_ok, undep, unbegun, pendI, pendR, look, xr.
   intros [[-> H]|[-> H]]; repeat split; try lia; try (intros; discriminate).
 Qed.
 
+(* quiescent initial states: a valid pointer is the current mapping's, and
+   extra is pending only while there is no pointer to flush it through *)
+Definition init_clean (s : shared) : Prop :=
+  (w_have (s_word s) = true -> s_ptr s = s_cur s) /\
+  (w_have (s_word s) = true -> s_ptr s <> None -> w_extra (s_word s) = 0) /\
+  (0 < w_extra (s_word s) -> w_have (s_word s) = true /\ s_ptr s = None).
+
 Theorem inv_init s ts :
   0 <= s_word s < W64 -> wf s -> Forall fresh_thread ts -> Z.of_nat (length ts) < LOCKED ->
-  w_readers (s_word s) = 0 ->
+  w_readers (s_word s) = 0 -> init_clean s ->
   Inv (persisted s + w_extra (s_word s) + sumf unbegun ts) (s, ts).
 Proof.
-  intros Hw W FR LEN R0.
+  intros Hw W FR LEN R0 (IC1 & IC2 & IC3).
   pose proof (fields_of _ Hw) as F. rewrite R0 in F.
   assert (M : sumf rd ts = 0 /\ sumf lk ts = 0 /\ sumf carry ts = 0 /\ sumf needs_ptr ts = 0 /\
-              Forall tl_ok ts /\ Forall (fun t => crashed t = false) ts /\ sumf undep ts = sumf unbegun ts).
+              Forall tl_ok ts /\ Forall (fun t => crashed t = false) ts /\ sumf undep ts = sumf unbegun ts /\
+              sumf pendI ts = 0 /\ sumf pendR ts = 0 /\ sumf look ts = 0 /\ sumf xr ts = 0).
   { clear -FR. induction ts as [|t ts IH]; cbn [sumf]; [repeat split; constructor|].
-    inversion FR as [|? ? Ft FR']; subst. destruct (IH FR') as (A & B & C & D & E & G & H).
-    destruct (fresh_measures _ Ft) as (a & b & c & d & e & g & _ & h).
+    inversion FR as [|? ? Ft FR']; subst. destruct (IH FR') as (A & B & C & D & E & G & H & I1 & I2 & I3 & I4).
+    destruct (fresh_measures _ Ft) as (a & b & c & d & e & g & _ & h & i1 & i2 & i3 & i4).
     repeat split; try lia; constructor; assumption. }
-  destruct M as (M1 & M2 & M3 & M4 & M5 & M6 & M7).
+  destruct M as (M1 & M2 & M3 & M4 & M5 & M6 & M7 & M8 & M9 & M10 & M11).
   exists 0, (w_have (s_word s)), (w_extra (s_word s)).
-  split; [exact F|]. rewrite M1, M2, M3, M4, M7.
+  split; [exact F|]. rewrite M1, M2, M3, M4, M7, M8, M9, M10, M11.
   split; [unfold cnt_ok; right; lia|]. split; [exact M5|]. split; [exact W|].
-  split; [intros; lia|]. split; [exact M6|]. split; [exact LEN|].
+  split; [intros; lia|]. split; [exact M6|].
+  split.
+  { unfold S_ok. split; [intros Hh Hne _; exfalso; apply Hne; apply IC1; exact Hh|].
+    split; [intros; lia|]. split; [intros _ Hh Hp; apply IC2; assumption|].
+    intros He. right. right. left. apply IC3. exact He. }
+  split; [exact LEN|].
   split; [lia|]. intros _. lia.
 Qed.
